@@ -21,7 +21,13 @@ type Relay struct {
 	Accepted atomic.Int64
 	stalled  atomic.Bool
 	frozen   atomic.Bool
+	noFail   atomic.Bool
 }
+
+// NoFailover(true): a connection whose chosen backend cannot be dialled is accepted and closed at once (a load
+// balancer that still has a dead backend in rotation) instead of being passed to the next backend; the next
+// connection starts with the next backend.
+func (r *Relay) NoFailover(on bool) { r.noFail.Store(on) }
 
 // Freeze(true) stops the relay reading from either side (the connections stay open and their TCP buffers fill
 // up: a path that is congested to a standstill); Freeze(false) lets the traffic flow again.
@@ -69,6 +75,13 @@ func NewRelay(backends ...string) (*Relay, error) {
 
 func (r *Relay) Addr() string { return r.ln.Addr().String() }
 
+// Open returns the number of relayed connections that are open (pairs of client-side and backend-side sockets).
+func (r *Relay) Open() int {
+	r.mu.Lock()
+	defer r.mu.Unlock()
+	return len(r.conns) / 2
+}
+
 func (r *Relay) pick() []string {
 	r.mu.Lock()
 	defer r.mu.Unlock()
@@ -96,6 +109,9 @@ func (r *Relay) serve() {
 				x, err := net.DialTimeout("tcp", cand, time.Second)
 				if err == nil {
 					b, backend = x, cand
+					break
+				}
+				if r.noFail.Load() {
 					break
 				}
 			}
